@@ -2,6 +2,7 @@ import Tbx.Drv.Common
 import Tbx.Model.Bincode
 import Tbx.Model.GraphFiles
 import Tbx.Spec.GraphText
+import Tbx.Drv.C07Huge
 /-
 Driver for C07 (graph_plier + loaders).
 
@@ -16,6 +17,7 @@ the judge reads it, only the model reads the text:
   metis   G: h <n> <m> | adj <t>...                   C: xy <lonMant> <lonScale> <latMant> <latScale>
   ddsg    G: d | h <n> <m> | e <u> <v> <w> <dir>      C: n <count> | xyi <idx> <lonMant> <lonScale> <latMant> <latScale>
   (decimal coordinate = mant / 10^scale, in units of 1e-5 degree)
+  HUGE metis-ring <n> <ring> <deg> <ncoords>          thorough tier only: a parametrised file pair, see Drv/C07Huge.lean
 
 obs (all determined):
   D rc=<exit status of graph_plier>                   0, or 101 for a panic; nothing else follows if not 0
@@ -283,6 +285,11 @@ def countMulti (gb cb : List Nat) : Nat :=
   e + c
 
 def handle (c : Case) : CaseOut := Id.run do
+  -- ---- thorough-tier family `huge`: parameters instead of text lines, digests instead of hex (Drv/C07Huge.lean)
+  for l in c.ops do
+    match words l with
+    | "HUGE" :: "metis-ring" :: args => return C07Huge.handle c args
+    | _ => pure ()
   -- ---- parse the ops
   let mut fmtO : Option Format := none
   let mut fmtName := ""
